@@ -25,9 +25,10 @@ import (
 
 func vBuildSM(ss []vSess, order []int) *sessionManager {
 	sm := &sessionManager{sessions: map[string]*session{}, bfdProfiles: []BFDProfile{}, reloadConfig: make(chan reloadEvent, 1), logLevel: "informational"}
+	pool := map[string]*bgp.Advertisement{} // equal advertisements of different sessions are one object, as in the speaker
 	for _, i := range order {
 		s := ss[i]
-		se := &session{SessionParameters: vParams(s), sessionManager: sm, advertised: vAdvertisements(s)}
+		se := &session{SessionParameters: vParams(s), sessionManager: sm, advertised: vAdvertisementsIn(s, pool)}
 		sm.sessions[sessionName(*se)] = se
 	}
 	return sm
@@ -70,7 +71,16 @@ func vCorpusC14() [][]vSess {
 	up2 := up1
 	up2.Iface = "eth1"
 	up2.Advs = []vAdv{{Prefix: "172.16.1.11/32", LP: 100, Comms: []string{}}}
-	return [][]vSess{{f15}, {rep}, {v6, none}, {rep, none}, {up1, up2}}
+	// a pool with two BGPAdvertisements, the second (other community) restricted to peer A: A and B share the first
+	// advertisement object, A has a second one of the same prefix listed after it; B carries that community elsewhere
+	shA := base
+	shA.Advs = []vAdv{{Prefix: "172.16.1.10/32", Comms: []string{"65000:100"}}, {Prefix: "172.16.1.10/32", Comms: []string{"65000:200"}}}
+	shB := base
+	shB.PeerAddr = "10.2.2.255"
+	shB.Advs = []vAdv{{Prefix: "172.16.1.10/32", Comms: []string{"65000:100"}}, {Prefix: "172.16.1.0/24", Comms: []string{"65000:200"}}}
+	shC := shB
+	shC.PeerAddr = "10.2.2.1" // sorted before A
+	return [][]vSess{{f15}, {rep}, {v6, none}, {rep, none}, {up1, up2}, {shA, shB}, {shA, shC}}
 }
 
 func TestVerifFrr(t *testing.T) {
@@ -108,6 +118,9 @@ func TestVerifFrr(t *testing.T) {
 		out.Stat("cases", 1)
 		if !ok {
 			out.Stat("createConfig_error", 1)
+		}
+		if vSharedThenExtra(ss) > 0 {
+			out.Stat("shared_advertisement_then_extra_community_on_one_neighbor", 1)
 		}
 		vrfs := map[string]bool{}
 		for _, s := range ss {
